@@ -10,7 +10,7 @@ static std::string rand_clean_request(Rng &r) {
   int kind = (int)r.below(16);
   std::string pre = r.chance(0.5) ? "foop/" : "todo/";
   switch (kind) {
-    case 0: return pre + std::to_string(r.pick(std::vector<int>{1, 2, 12, 34, 77, 123, 1234, 5, 0}));
+    case 0: return pre + std::to_string(r.pick(std::vector<unsigned long long>{1, 2, 12, 34, 77, 123, 1234, 5, 0, 4294967297ULL /* 2^32 + a number that exists: inode numbers are 64 bits wide */, 4294967298ULL, 4294967308ULL, 4294967373ULL, 1099511627853ULL, 8589934593ULL, 18446744073709551615ULL}));
     case 1: return pre + std::to_string(r.pick(std::vector<int>{1, 2, 12, 77})) + r.pick(alpha) + std::to_string(r.below(10));   // digit, junk, digit
     case 2: { std::string p2 = pre; p2[r.below(5)] = r.pick(alpha)[0]; return p2 + std::to_string(r.pick(std::vector<int>{1, 2, 12, 77})); }  // near-valid prefix
     case 3: return pre;                                            // too short
